@@ -2639,6 +2639,10 @@ func (s *Server) serveConnCounted(c net.Conn, countConcurrency bool) error {
 			s.Handler(ctx)
 		}
 
+		// The request isn't available anymore once ctx is replaced below.
+		isHead := ctx.IsHead()
+		isHTTP11 := ctx.Request.Header.IsHTTP11()
+
 		timeoutResponse = ctx.timeoutResponse
 		if timeoutResponse != nil {
 			// Acquire a new ctx because the old one will still be in use by the timeout out handler.
@@ -2646,7 +2650,7 @@ func (s *Server) serveConnCounted(c net.Conn, countConcurrency bool) error {
 			timeoutResponse.CopyTo(&ctx.Response)
 		}
 
-		if ctx.IsHead() {
+		if isHead {
 			ctx.Response.SkipBody = true
 		}
 
@@ -2683,7 +2687,7 @@ func (s *Server) serveConnCounted(c net.Conn, countConcurrency bool) error {
 			(s.CloseOnShutdown && s.stop.Load() == 1)
 		if connectionClose {
 			ctx.Response.Header.SetConnectionClose()
-		} else if !ctx.Request.Header.IsHTTP11() {
+		} else if !isHTTP11 {
 			// Set 'Connection: keep-alive' response header for HTTP/1.0 request.
 			// There is no need in setting this header for http/1.1, since in http/1.1
 			// connections are keep-alive by default.
